@@ -154,7 +154,8 @@ def _euclid_loop(I, pa, pb):
         if through:
             if not (r == px and zero_test(st.facts, py, True)):
                 return False
-        elif not ((r == ax and zero_test(st.facts, ay, True)) or (r == ay and zero_test(st.facts, ax, True))):
+        elif not ((is_abs_of(r, pa) and (zero_test(st.facts, ay, True) or zero_test(st.facts, pb, True))) or (is_abs_of(r, pb) and (zero_test(st.facts, ax, True) or zero_test(st.facts, pa, True)))):
+            # (b == 0 exactly when |b| == 0: the fast path may test the raw operand)
             return False
     return bool(I.final_states)
 
@@ -269,11 +270,21 @@ def rule_gcd(col, gcd, Af, rid="Q2"):
         col.violation(rid, key, gcd.loc(), "gcd's loop is not the remainder/swap loop over the absolute values")
 
 
+def gcd_analyser(prog, crate, fixture=None):
+    free = [f for f in crate.bodies if not f.is_closure and f.kind == "Fn" and f.container is None and f.vis != "pub" and not util.self_recursive(f)]
+    # methods the Integer / ZeroOne traits provide themselves (`fn is_zero(&self) -> bool { *self == Self::ZERO }`) are what a
+    # call on the type parameter runs unless an impl overrides them (none of the primitive impls may: checked by Q4's coverage)
+    nt_ = prog.crates.get("rlib_num_traits") if not fixture else None
+    if nt_ is not None:
+        overridden = {it["name"] for i_ in nt_.impls for it in i_["items"]}
+        free += [b_ for b_ in nt_.bodies if not b_.is_closure and nt_.impl_of(b_) is None and b_.kind == "AssocFn" and not util.self_recursive(b_) and b_.name not in overridden]
+    # Option/bool combinators with closures are case splits; `x op= y` on the type parameter is x := x op y
+    return util.analyser(free, features=("comb", "fncall", "opassign"))
+
+
 def check(col, prog, tier, profile, fixture=None):
     crate = prog.crate(fixture or "rlib_gcd")
-    free = [f for f in crate.bodies if not f.is_closure and f.kind == "Fn" and f.container is None and f.vis != "pub" and not util.self_recursive(f)]
-    # Option/bool combinators with closures are case splits; `x op= y` on the type parameter is x := x op y
-    Af = util.analyser(free, features=("comb", "fncall", "opassign"))
+    Af = gcd_analyser(prog, crate, fixture)
     fk = util.fkey
     gcd = util.need_body(crate, "gcd")
     lcm = util.need_body(crate, "lcm")
